@@ -44,7 +44,8 @@ static int c7_lateflags = 0, c7_sbt = 0, c7_log_st = 1, c7_log_saved = 1, c7_off
 static unsigned c7_boot2 = 1;
 static unsigned c7_chflags[8];
 static char **c7_lines; static int c7_nlines, c7_idx; static const char *c7_cfgline = "";
-static void (*c7_after_boot)(void) = 0;      /* hook of the including driver (c06) */
+static void (*c7_after_boot)(void) = 0;      /* hooks of the including driver (c06) */
+static void (*c7_after_cfg)(void) = 0; static void (*c7_after_event)(void) = 0;
 static int (*c7_extra_event)(char *l) = 0;
 
 static void c7_flash_hook(const char *op, unsigned addr, unsigned len) {
@@ -90,6 +91,7 @@ static void c7_parse_cfg(const char *line) {
   c7_cfgpos = i;
 #undef NEXT
   for (int k = 0; k < 8; k++) c7_chflags[k] = k < v_board.nrelay ? v_board.relay[k].channel_flags : 0;
+  if (c7_after_cfg) c7_after_cfg();
 }
 static void c7_fill_flags(void) {   /* lines 1538-1547 of supla_esp_devconn_set_channels, by relay index */
   for (int a = 0; a < RELAY_MAX_COUNT && a < v_board.nrelay; a++)
@@ -160,7 +162,7 @@ static int c7_event(char *l) {
 static void c7_run_from(int i) {
   for (c7_idx = i; c7_idx < c7_nlines; c7_idx++) {
     if (!c7_event(c7_lines[c7_idx])) vout("UNKNOWN-EVENT :");
-    c7_st();
+    if (c7_after_event) c7_after_event(); else c7_st();
   }
   ds_finish();
 }
@@ -169,7 +171,7 @@ static void run_case(int n, char **lines) {
   int i = 0; c7_lines = lines; c7_nlines = n;
   if (n > 0 && !strncmp(lines[0], "CFG", 3)) { c7_cfgline = lines[0]; i = 1; }
   c7_parse_cfg(c7_cfgline);
-  c7_boot(1); c7_st();
+  c7_boot(1); if (c7_after_event) c7_after_event(); else c7_st();
   c7_run_from(i);
 }
 
@@ -189,7 +191,7 @@ static int c7_resume(const char *path) {
   v_boot = (unsigned)(c7_boot2 - (unsigned)v_now);   /* the counter restarts at boot2 */
   v_lateness_n = v_lateness_n;                        /* lateness script restarts at index 0 (fresh process) */
   vout("REBOOT %llu :", v_now);
-  c7_boot(0); c7_st();
+  c7_boot(0); if (c7_after_event) c7_after_event(); else c7_st();
   c7_run_from(0);
   return 0;
 }
